@@ -232,6 +232,19 @@ def cursor_checks(ctx, project, by_id, flt, canon):
     ghost = project.open_job({"ghost": 1})
     if ghost in cur:
         problems.append(("contains-uninitialised",))
+    # each view asked first on a cursor that has not been used for anything else
+    for jid in by_id:
+        fresh = project.find_jobs(copy.deepcopy(flt)) if flt is not None else project.find_jobs()
+        if (project.open_job(id=jid) in fresh) != (jid in canon):
+            problems.append(("contains-asked-first", jid))
+            break
+    fresh = project.find_jobs(copy.deepcopy(flt)) if flt is not None else project.find_jobs()
+    if len(fresh) != len(canon):
+        problems.append(("len-asked-first", len(fresh)))
+    if ids:
+        fresh = project.find_jobs(copy.deepcopy(flt)) if flt is not None else project.find_jobs()
+        if fresh[0].id != ids[0]:
+            problems.append(("getitem-asked-first",))
     if problems:
         ctx.violation("cursor-views-disagree", "cursor len/iter/index/slice/membership do not describe one id set",
                       {"filter": flt, "problems": problems, "canonical": sorted(canon), "corpus": by_id})
